@@ -85,8 +85,30 @@ SRC_SPECS = [
                 'self._total_cia': ('totalCia', 'nat')},
          out='tau', returns='arr2'),
 ]
+# the loop over the LIST of contributions (what `tauCut cs` / `tauFull cs` model): `TransmissionModel.path_integral` with
+# its break, the functions it calls and the other two `contribute` methods Python's dynamic dispatch reaches (kinds `lin`,
+# `layerOnly`).  The specs are C01's (harness/c01.py), re-translated here into Gen/SrcC03.lean.
+_C01 = {s['lean']: s for s in T.SRC_SPECS}
+SRC_SPECS += [dict(_C01[k]) for k in ('contribution_contribute', 'clouds_contribute', 'compute_path_length_old',
+                                      'compute_absorption', 'parallel_vector', 'compute_path_length', 'path_integral')]
+SRC_SPECS[-1]['callname'] = 'self.path_integral'
+# SimpleForwardModel.model_contrib (wngrid=None): the loop that runs `path_integral` on every contribution ALONE
+# (`self.contribution_list = [contrib]`; `contrib.prepare` = the abstract update `prepare` of the object) and stores the result
+# in a dict under `contrib.name` (`name`): a later contribution with the same name REPLACES the earlier entry (K4).  Profile /
+# star initialisation are calls for their effect on state outside the translated value.
+SRC_SPECS.append(
+    dict(module='taurex/model/simplemodel.py', cls='SimpleForwardModel', func='model_contrib', lean='model_contrib',
+         dialect='shaped', params=dict(wngrid='skip', cutoff_grid='skip'),
+         static={'wngrid is not None and cutoff_grid': False},
+         ignore_calls=r'^self\.(debug|info|warning|error|critical|initialize_profiles)\(|^self\._star\.initialize\(',
+         attrs={'self.nativeWavenumberGrid': ('nativeGrid', 'arr')}, dims={'self.nativeWavenumberGrid': ['nW']},
+         objlists={'full_contrib_list': 'contribs'}, obj_assign=['full_contrib_list'],
+         local_objlists={'self.contribution_list': 'contribs'},
+         methods={'prepare': dict(lean='prepare', kinds=['skip', 'skip'], updates_obj=True)},
+         dicts={'all_contrib_dict': dict(key=('contrib.name', 'name'), value=['arr', 'arr2', 'skip'])},
+         returns=['arr', 'dict']))
 
-RULE = ('real TransmissionModel, 2-25 layers, 1-5 wavenumbers, 2-4 trace gases (constant/array profiles), CIA pairs '
+RULE =('real TransmissionModel, 2-25 layers, 1-5 wavenumbers, 2-4 trace gases (constant/array profiles), CIA pairs '
         'H2-H2, H2-He, H2-<trace gas>, contributions drawn from {Absorption, CIA, Rayleigh, SimpleClouds, FlatMie | '
         'LeeMie, HydrogenIon} (at least two) in shuffled insertion order, opacity regime thin/mid/thick; every 3rd case '
         'has a trace gas (first/middle/last) at EXACTLY zero abundance (constant, some layers, all layers). distinct '
